@@ -154,6 +154,31 @@ func GenExpiry(t *rapid.T) Case {
 		c.Steps = append(c.Steps, Step{Kind: "restart"})
 	}
 	c.Steps = append(c.Steps, Step{Kind: "wait"})
+	if rapid.Bool().Draw(t, "full-pool") && len(c.Clients) >= 2 {
+		if rapid.IntRange(0, 3).Draw(t, "short-lease") > 0 {
+			c.Lease = rapid.SampledFrom([]string{"1s", "0s", "1500ms"}).Draw(t, "lease-short")
+		}
+		// the range is exactly as large as the set of clients bound so far, their leases (if short)
+		// have run out, and somebody new asks: the range is still full
+		c.N = uint32(len(c.Clients))
+		if c.Start > 0xffffffff-c.N {
+			c.Start = 0xffffffff - c.N
+		}
+		nc := genHW(t, 7, "C02")
+		dup := false
+		for _, x := range c.Clients {
+			if x == nc {
+				dup = true
+			}
+		}
+		if !dup {
+			c.Clients = append(c.Clients, nc)
+			c.Steps = append(c.Steps, Step{Kind: "discover", Client: len(c.Clients) - 1, Host: genHost(t)})
+			if rapid.Bool().Draw(t, "restart-mid") {
+				c.Steps = append(c.Steps, Step{Kind: "restart"})
+			}
+		}
+	}
 	for i := range c.Clients {
 		c.Steps = append(c.Steps, Step{Kind: rapid.SampledFrom([]string{"request", "discover"}).Draw(t, "renew-kind"), Client: i, Host: genHost(t)})
 	}
